@@ -1010,6 +1010,23 @@ def probe_ctx_binding():
     return None
 
 
+def probe_failtest():
+    """fail_test: a task that calls sys.exit() is booked as a failed task (run_tasks with continue_on_failure returns the others)."""
+    from labtech.exceptions import LabError
+    from labtech.lab import Lab
+    from lv_probe_types import PLeaf, PExit
+    good, bad = PLeaf(x=5), PExit(x=1)
+    with _quiet():
+        lab = Lab(storage=None, runner_backend='serial', continue_on_failure=True, notebook=False)
+        try:
+            res = lab.run_tasks([bad, good], disable_progress=True, disable_top=True)
+        except LabError as e:
+            return 'FailException' if 'Unexpected task res' in str(e) else None
+    if res.get(good) == 5 and bad not in res:
+        return 'FailBaseException'
+    return None
+
+
 def probe_view():
     """view_mode: under the fork backend, does a worker forked after the in-memory results have been empty once still see the
     results of its dependencies?  (One worker; an independent task finishes first and its result is released at once.)"""
@@ -1070,6 +1087,7 @@ def all_probes():
     out['launch'] = _limited(probe_launch)
     out['view'] = _limited(probe_view)
     out['mark'] = _limited(probe_mark)
+    out['failtest'] = _limited(probe_failtest)
     out['lq'] = _limited(probe_log_queue)
     out['binding'] = _limited(probe_ctx_binding)
     out['scope'] = _limited(probe_scope)
